@@ -416,7 +416,9 @@ fn slow_callback() -> BoxedStrategy<Vec<Step>> {
 }
 
 fn stream_spawn() -> BoxedStrategy<SpawnSpec> {
-    (proptest::option::of(mailbox()), any::<bool>()).prop_map(|(builder, owning)| SpawnSpec::Stream { builder, owning }).boxed()
+    (proptest::option::of(mailbox()), any::<bool>(), proptest::option::weighted(0.25, (1u32..=4, any::<bool>())))
+        .prop_map(|(builder, owning, timeout)| SpawnSpec::Stream { builder, owning, timeout: timeout.filter(|_| builder.is_some()) })
+        .boxed()
 }
 
 /// message work with context operations
@@ -639,7 +641,7 @@ pub fn c12(big: bool) -> BoxedStrategy<Case> {
     let spawn = prop_oneof![
         9 => (mb, any::<bool>()).prop_map(|(mailbox, owning)| SpawnSpec::Build { mailbox, strategy: RStrat::Default, timeout: None, fail_on_timeout: false, owning }),
         // the stream builder's bounded terminals must apply the bound as well
-        1 => (0u8..=3, any::<bool>()).prop_map(|(n, owning)| SpawnSpec::Stream { builder: Some(Mailbox::Bounded(n)), owning }),
+        1 => (0u8..=3, any::<bool>()).prop_map(|(n, owning)| SpawnSpec::Stream { builder: Some(Mailbox::Bounded(n)), owning, timeout: None }),
     ];
     let base = OpWeights { send: 55, call: 12, ping: 6, convert: 8, yield_: 5, sleep: 4, give: 1, drop: 0, stop: 2, try_stop: 1, call_drop: 8, max_sleep: 6, ..MSG_WEIGHTS };
     let timers = prop_oneof![
@@ -981,7 +983,7 @@ pub fn c17(big: bool) -> BoxedStrategy<Case> {
         1 => Just(SpawnSpec::SpawnDefaultOwning),
         4 => mailbox().prop_map(|mailbox| SpawnSpec::Build { mailbox, strategy: RStrat::Default, timeout: None, fail_on_timeout: false, owning: true }),
         2 => (mailbox(), 2u32..6, any::<bool>()).prop_map(|(mailbox, t, fail_on_timeout)| SpawnSpec::Build { mailbox, strategy: RStrat::Default, timeout: Some(t), fail_on_timeout, owning: true }),
-        1 => proptest::option::of(mailbox()).prop_map(|builder| SpawnSpec::Stream { builder, owning: true }),
+        1 => proptest::option::of(mailbox()).prop_map(|builder| SpawnSpec::Stream { builder, owning: true, timeout: None }),
     ];
     let cause = prop_oneof![
         6 => Just(Cause::None),
@@ -1004,7 +1006,7 @@ pub fn c17(big: bool) -> BoxedStrategy<Case> {
                 Cause::FinishPanic => {
                     // only stream-attached actors have a `finished` callback
                     if !matches!(spawn, SpawnSpec::Stream { .. }) {
-                        spawn = SpawnSpec::Stream { builder: spawn.mailbox_opt(), owning: true };
+                        spawn = SpawnSpec::Stream { builder: spawn.mailbox_opt(), owning: true, timeout: None };
                     }
                     faults.push(Fault::FinishPanic { actor: 0 });
                 }
